@@ -107,6 +107,38 @@ def correspond(ctx):
                 add(f"run_port_render {coq_bool(nr)} {sel} {n}", outcome(render),
                     {"k": "port_render", "protocol": proto, "platform": plat, "version": ver, "n": n, "port_nr": nr},
                     nt=(n in names.values()))
+    # --- histories: a port built from a name (its table has been used), then moved to another platform:
+    #     it must render like a fresh port of that platform, and that text must parse back to the number
+    for (proto, plat, v15), names in tables.items():
+        ver = "15" if v15 else "0"
+        for name, n in sorted(names.items()):
+            for plat2 in PLATS:
+                if plat2 == plat:
+                    continue
+                def switch(name=name, n=n, plat2=plat2):
+                    p = ca.Port(f"eq {name}", protocol=proto, platform=plat, version=ver)
+                    _ = p.line
+                    p.platform = plat2
+                    line = p.line
+                    assert line.startswith("eq ")
+                    q = ca.Port(line, protocol=proto, platform=plat2, version=ver)
+                    assert q.items == [n], (line, q.items)
+                    return line[3:]
+                add(f"run_port_render false {PROTOS[proto]} {PLATS[plat2]} {coq_bool(v15)} {n}", outcome(switch),
+                    {"k": "port_switch", "protocol": proto, "platform": plat, "to": plat2, "version": ver, "name": name, "n": n})
+    for plat, cp in PLATS.items():
+        for n_, name in sorted(pr.NR_TO_PROTOCOL[plat].items()):
+            for plat2, cp2 in PLATS.items():
+                if plat2 == plat:
+                    continue
+                def pswitch(name=name, plat=plat, plat2=plat2):
+                    o = ca.Protocol(name, platform=plat)
+                    _ = o.line
+                    o.platform = plat2
+                    assert ca.Protocol(o.line, platform=plat2).number == o.number
+                    return o.line
+                add(f"run_proto_render {cp2} false false {n_}", outcome(pswitch),
+                    {"k": "proto_switch", "platform": plat, "to": plat2, "name": name, "n": n_})
     # --- protocols: all numbers x platform x switch x has_port; all names; garbage
     for plat, cp in PLATS.items():
         for nr in (False, True):
@@ -181,6 +213,28 @@ def oracle(ctx, kernel, meta):
             if rt.get(nm) != n:
                 return {"what": f"{proto} name {nm!r} denotes {n}, standard number is {rt.get(nm)}", "input": meta}
         return _closed_ports(ca, pn, meta["protocol"], meta["platform"], meta["version"])
+    if k == "port_switch":
+        try:
+            p = ca.Port(f"eq {meta['name']}", protocol=meta["protocol"], platform=meta["platform"], version=meta["version"])
+            _ = p.line
+            p.platform = meta["to"]
+            line = p.line
+            back = ca.Port(line, protocol=meta["protocol"], platform=meta["to"], version=meta["version"]).items
+        except Exception as ex:  # noqa
+            return {"what": f"port {meta['name']!r} ({meta['n']}) moved {meta['platform']}->{meta['to']}: its text is not "
+                            f"accepted by the {meta['to']} parser: {type(ex).__name__}: {str(ex)[:120]}"}
+        if back != [meta["n"]]:
+            return {"what": f"port {meta['name']!r} moved {meta['platform']}->{meta['to']} renders {line!r} = {back}, was {meta['n']}"}
+        return None
+    if k == "proto_switch":
+        try:
+            o = ca.Protocol(meta["name"], platform=meta["platform"])
+            _ = o.line
+            o.platform = meta["to"]
+            back = ca.Protocol(o.line, platform=meta["to"]).number
+        except Exception as ex:  # noqa
+            return {"what": f"protocol {meta['name']!r} moved {meta['platform']}->{meta['to']}: {type(ex).__name__}: {ex}"}
+        return None if back == meta["n"] else {"what": f"protocol {meta['name']!r} moved to {meta['to']} denotes {back}, was {meta['n']}"}
     if k == "all_known_names" or k == "split":
         return _vocab(ca, pn)
     if k in ("PROTOCOLS_ANY", "NR_TO_PROTOCOL", "PROTOCOL_TO_NR", "proto_render", "proto_parse"):
